@@ -36,6 +36,17 @@ class NTuple(tuple):
     _tname = ""
 
 
+class LambdaRef:
+    """A lambda expression stored in a table (kept as syntax)."""
+
+    def __init__(self, node, mod):
+        self.node = node
+        self.mod = mod
+
+    def __repr__(self):
+        return f"LambdaRef({ast.unparse(self.node)[:40]})"
+
+
 class SymRef:
     """Reference to a repo function/class by qname (values of tables)."""
 
@@ -69,7 +80,7 @@ _PURE = {
     "len": len, "dict": dict, "list": list, "tuple": tuple, "set": set, "frozenset": frozenset,
     "zip": zip, "range": range, "sorted": sorted, "sum": sum, "min": min, "max": max,
     "abs": abs, "int": int, "float": float, "str": str, "enumerate": enumerate,
-    "reversed": reversed, "round": round, "bool": bool, "map": None,
+    "reversed": reversed, "round": round, "bool": bool, "map": None, "type": None, "object": None,
 }
 _STR_METHODS = {"format", "join", "lower", "upper", "split", "strip", "replace", "capitalize", "title"}
 _DICT_METHODS = {"items", "keys", "values", "get", "copy"}
@@ -312,7 +323,7 @@ class Folder:
         if isinstance(node, ast.Call):
             return self._call(node, mod, env, cls)
         if isinstance(node, ast.Lambda):
-            raise Unfoldable("lambda")
+            return LambdaRef(node, mod)
         raise Unfoldable(type(node).__name__)
 
     def _elts(self, elts, ev):
@@ -387,6 +398,8 @@ class Folder:
             r = self.prog.resolve_name(mod, f.id) if f.id not in env else None
             if r is None and f.id in _PURE and f.id not in env:
                 fn = _PURE[f.id]
+                if f.id == "type" and len(node.args) == 1:
+                    return SymRef("builtin", type(ev(node.args[0])).__name__)
                 if fn is None:
                     raise Unfoldable(f.id)
                 args = list(self._elts(node.args, ev))
